@@ -349,6 +349,47 @@ def r_window(ctx: Ctx, model):
                                         f"{fi.name}(limits={limname}) has no path that refuses a region of fewer than three points with CalculationError"),
                    nontrivial_key=(fi.name, limname, "has-refusal"))
     ctx.floor("window paths", nruns, 30)
+    # the three-point minimum on a concrete pressure grid: limits enclosing exactly one, two and three points
+    import bisect
+    from fractions import Fraction as Fr
+    ctx.rule("L-window (three-point minimum): on a concrete grid, manual limits enclosing one or two points are refused with "
+             "CalculationError, limits enclosing three points are fitted on exactly those points")
+    grid = [Fr(5, 100), Fr(1, 10), Fr(2, 10), Fr(3, 10), Fr(4, 10), Fr(5, 10), Fr(6, 10)]
+    Ic = make_interp(model)
+    install_vec(Ic)
+
+    def ss(I, a, k, n):
+        arr = a[0].items if isinstance(a[0], Vec) else list(a[0])
+        if all(isinstance(x, Num) and x.is_const() for x in arr) and isinstance(a[1], Num) and a[1].is_const():
+            vals = [x.value() for x in arr]
+            side = k.get("side", "left")
+            return Num.const(bisect.bisect_right(vals, a[1].value()) if side == "right" else bisect.bisect_left(vals, a[1].value()))
+        return Num.atom(f"searchsorted({I.describe(a[0])},{I.describe(a[1])})")
+    Ic.ext["numpy.searchsorted"] = ss
+    Pc = lambda: Vec([Num.const(g) for g in grid], tag="P")
+    Lc = lambda: Vec([Num.atom(f"n{i}") for i in range(len(grid))], tag="N")
+    specs_c = {
+        f"{CH}.area_bet.area_BET_raw": (lambda lim: [Pc(), Lc(), Num.atom("sigma"), lim], 6, 7),
+        f"{CH}.area_lang.area_langmuir_raw": (lambda lim: [Pc(), Lc(), Num.atom("sigma"), lim], 5, 6),
+        f"{CH}.dr_da_plots.da_plot_raw": (lambda lim: [Pc(), Lc(), Num.atom("T"), Num.atom("M"), Num.atom("rho"), Num.const(2), lim], 5, 6),
+    }
+    cases = [("one point", (Fr(25, 100), Fr(35, 100)), None), ("two points", (Fr(15, 100), Fr(35, 100)), None),
+             ("three points", (Fr(15, 100), Fr(45, 100)), (2, 4)), ("four points", (Fr(15, 100), Fr(55, 100)), (2, 5))]
+    for q, (mkargs, imn, imx) in specs_c.items():
+        fi = model.func(q)
+        for cname, (lo_, hi_), want in cases:
+            outs = explore(Ic, lambda I: I.call_func(fi, mkargs((Num.const(lo_), Num.const(hi_))), {}, None))
+            if want is None:
+                ok = bool(outs) and all(o.kind == "raise" and o.exc.is_a("CalculationError") and not o.exc.fault for o in outs)
+                got = [repr(o)[:70] for o in outs[:2]]
+            else:
+                oks = [o for o in outs if o.kind == "ok"]
+                got = [(Ic.describe(o.value[imn]), Ic.describe(o.value[imx])) for o in oks[:2]] or [repr(o)[:70] for o in outs[:2]]
+                ok = bool(oks) and len(oks) == len(outs) and all(o.value[imn] == Num.const(want[0]) and o.value[imx] == Num.const(want[1]) for o in oks)
+            ctx.ob(ok, Finding("C14.L-window", fi.where, f"{fi.name}|concrete-limits|{cname}",
+                               f"{fi.name} with limits ({lo_}, {hi_}) on pressures {[str(g) for g in grid]} ({cname} inside): {got}; required "
+                               + ("CalculationError (fewer than three points)" if want is None else f"a fit on the points {want[0]}..{want[1]}")),
+                   nontrivial_key=("concrete-window", fi.name, cname))
 
 
 def ordering(oc):
